@@ -1055,6 +1055,9 @@ def classify_idem(text: str, out: str, out2: str, cfg: T.Dict[str, T.Any], cfgdi
             return f2.format(o1, P) == o1
         except Exception:
             return False
+    if 'files-array' in region_features(out, out2):
+        # a files([...]) call is still to be flattened in the statements that differ (one level per pass)
+        return ['idempotence:files-array']
     active = [o for o in CAUSE_OPTIONS if cfg[o] != (DEFAULT_CFG[o] if o != 'simplify_string_literals' else False)]
     for k in range(1, len(active) + 1):
         for opts in itertools.combinations(active, k):
